@@ -922,7 +922,7 @@ class Interp(Engine):
                 return self.ev(node.body)
             if z3.is_false(cs):
                 return self.ev(node.orelse)
-            a, b = self.ev(node.body), self.ev(node.orelse)
+            a, b = self.under_guard(c, node.body), self.under_guard(z3.Not(c), node.orelse)
             return self.ite(c, a, b, node)
         if self.branch(c, "ifexp L%d" % node.lineno):
             return self.ev(node.body)
@@ -947,9 +947,28 @@ class Interp(Engine):
             return PRaw(z3.If(c, a.t, b.t))
         return SV(z3.If(c, self.to_term(a, node), self.to_term(b, node)), None)
 
+    def under_guard(self, g, expr):
+        """evaluate a specification sub-expression whose value only matters when g holds"""
+        guards = self.__dict__.setdefault("spec_guards", [])
+        guards.append(g)
+        try:
+            return self.ev(expr)
+        finally:
+            guards.pop()
+
     def ev_BoolOp(self, node):
         if self.spec_mode:
-            vals = [self.ev(v) for v in node.values]
+            vals = []
+            acc = []
+            for e in node.values:
+                if not acc:
+                    v = self.ev(e)
+                else:
+                    v = self.under_guard(z3.And(acc) if len(acc) > 1 else acc[0], e)
+                vals.append(v)
+                if isinstance(v, SV):
+                    t = self.truthy(v, node)
+                    acc.append(t if isinstance(node.op, ast.And) else z3.Not(t))
             if all(isinstance(v, SV) and (v._b is not None or parse_tag(v.ty)[0] == "bool") for v in vals):
                 bs = [self.truthy(v, node) for v in vals]
                 return BoolSV(z3.And(bs) if isinstance(node.op, ast.And) else z3.Or(bs))
